@@ -34,9 +34,11 @@ PROP = {
                    "seeded, seeded scanline-sensitive), are executed and every Execute is compared with a freshly constructed object given the same inputs and "
                    "options; plus random histories of 50-200 operations, two clippers alternating on a shared "
                    "ReuseableDataContainer64, permutations of distant paths/groups in one offset call against their stand-alone "
-                   "results, and two processes compared bit for bit."),
+                   "results, and two processes compared bit for bit. The bounded spaces of Clipper64, ClipperOffset and RectClip (one bundle at "
+                   "the quick tier, two at the thorough tier) and random long histories are repeated in an ASan+UBSan build, so a history that leaves a stale pointer "
+                   "behind (e.g. to the result container of an earlier call) is reported as a memory error."),
     "level_note": "model: 'fresh object' sequential specification; premise: one reusable container is added at most once between Clears (adding it twice never terminates normally, see C10 known finding); Execute(callback) is modelled as SetDeltaCallback+Execute(1.0), as its source states",
-    "technique": "runtime monitoring: history checker against a fresh-object reference model, exhaustive bounded histories + random long histories + process twins",
+    "technique": "runtime monitoring: history checker against a fresh-object reference model, exhaustive bounded histories + random long histories + process twins; same histories under AddressSanitizer+UBSan",
     "rule": ("case index = (bundle, sequence number); a history is non-trivial iff it contains at least one Execute (then every Execute is "
              "compared with a fresh object); distinct by hash of bundle+sequence"),
     "assumptions": ["comparison is exact (ordered paths, open paths, tree shape, return value; bitwise for doubles)"],
@@ -64,5 +66,11 @@ PROP = {
         {"mon": "mon_c12", "cfg": "plain", "cases": _q(0, 40000), "args": ["--mode", "long"], "seed_off": 3},
         {"mon": "mon_c12", "cfg": "plain", "cases": _q(3000, 100000), "args": ["--mode", "shared"]},
         {"mon": "mon_c12", "cfg": "plain", "cases": _q(20000, 600000), "args": ["--mode", "indep"]},
+        # the same bounded history spaces under ASan+UBSan: a history that leaves a stale pointer behind (to a result
+        # container of an earlier call, to a freed vertex list) is a memory error before it is a different result
+        {"mon": "mon_c12", "cfg": "asan", "cases": _q(_nseq(13, 4), 2 * _nseq(13, 5)), "args": ["--mode", "off", "--maxlen", "5"], "seed_off": 21},
+        {"mon": "mon_c12", "cfg": "asan", "cases": _q(_nseq(14, 4), 2 * _nseq(14, 5)), "args": ["--mode", "c64", "--maxlen", "5"], "seed_off": 22},
+        {"mon": "mon_c12", "cfg": "asan", "cases": _q(_nseq(8, 4), 2 * _nseq(8, 5)), "args": ["--mode", "rect", "--maxlen", "5"], "seed_off": 23},
+        {"mon": "mon_c12", "cfg": "asan", "cases": _q(3000, 40000), "args": ["--mode", "long"], "seed_off": 24},
     ],
 }
